@@ -10,6 +10,7 @@
 #include <stdlib.h>
 #include <string.h>
 #include <unistd.h>
+#include <malloc.h>
 #include "wasmref.h"
 
 typedef void (*ls_tramp)(void *fn, void *inst, const uint64_t *args, uint64_t *res);
@@ -87,6 +88,9 @@ static void ls_fatal(int sig) {
 
 /* ---- statistics ---- */
 static unsigned long long ls_evals, ls_skipped, ls_weak, ls_mismatches, ls_traps;
+static int ls_last_skipped, ls_last_mismatch;
+static int ls_compare_mem_flag;
+static const char *ls_compare_memory(void);
 static int ls_nontrivial;
 static int ls_max_report = 40;
 
@@ -106,8 +110,8 @@ static uint64_t ls_step(const ls_func *f, int fidx, uint32_t ref_index, const ui
     h = (uint64_t)rt * 1000003u + rr.bits * 31u + rr.nd + (uint64_t)ls_tr_ref.n * 7919u;
     for (k = 0; k < ls_tr_ref.n; k++) h = h * 1099511628211ull + ls_tr_ref.ev[k].args[0] + (uint64_t)ls_tr_ref.ev[k].import;
     if (rt == RT_FUEL || rt == RT_OOB || rt == RT_UNINIT_ELEM || rt == RT_SIG_MISMATCH || rt == RT_EXHAUSTED || rt == RT_UNALIGNED
-        || rt == RT_UNSUPPORTED || rt == RT_WOULD_BLOCK || rt == RT_NOT_SHARED || ls_tr_ref.overflow) { ls_skipped++; return h ^ 0x5555; }
-    if (ls_ref->tainted) { ls_weak++; return h; }
+        || rt == RT_UNSUPPORTED || rt == RT_WOULD_BLOCK || rt == RT_NOT_SHARED || ls_tr_ref.overflow) { ls_skipped++; ls_last_skipped = 1; ls_last_mismatch = 0; return h ^ 0x5555; }
+    if (ls_ref->tainted) { ls_weak++; ls_last_skipped = 1; ls_last_mismatch = 0; return h; }
     if (rt) ls_traps++;
     /* implementation */
     ls_tr_impl.n = 0; ls_tr_impl.overflow = 0;
@@ -129,9 +133,10 @@ static uint64_t ls_step(const ls_func *f, int fidx, uint32_t ref_index, const ui
             if (!b->inst_ok) { what = "trace-instance"; break; }
         }
     }
+    if (!what && ls_compare_mem_flag) what = ls_compare_memory();
     if (what) {
         ls_mismatches++;
-        if (ls_mismatches <= (unsigned long long)ls_max_report) {
+        if (ls_mismatches <= (unsigned long long)ls_max_report && !ls_compare_mem_flag) {
             /* replay before report: the implementation must give the same answer twice */
             uint64_t ir2 = 0; int it2;
             ls_tr_impl.n = 0; ls_in_impl = 1; it2 = setjmp(ls_jb); if (it2 == 0) f->tramp(f->fn, ls_cur_inst, args, &ir2); ls_in_impl = 0;
@@ -139,8 +144,14 @@ static uint64_t ls_step(const ls_func *f, int fidx, uint32_t ref_index, const ui
             printf(" exp=%s:%llx:nd%d got=%s:%llx ntrace=%d/%d%s\n", wr_trap_name(rt), (unsigned long long)rr.bits, rr.nd,
                    it >= 100 ? "other-trap" : wr_trap_name(it), (unsigned long long)ir, ls_tr_ref.n, ls_tr_impl.n,
                    (it2 != it || ir2 != ir) ? " FLAKY" : "");
+        } else if (ls_mismatches <= (unsigned long long)ls_max_report) {
+            /* stateful: no second execution (it would change the state); replay happens from a fresh instance */
+            printf("MISMATCH f=%d name=%s what=%s in=", fidx, f->name, what); ls_print_args(args, f->np);
+            printf(" exp=%s:%llx:nd%d got=%s:%llx ntrace=%d/%d\n", wr_trap_name(rt), (unsigned long long)rr.bits, rr.nd,
+                   it >= 100 ? "other-trap" : wr_trap_name(it), (unsigned long long)ir, ls_tr_ref.n, ls_tr_impl.n);
         }
     }
+    ls_last_skipped = 0; ls_last_mismatch = what != NULL;
     return h;
 }
 
@@ -162,6 +173,7 @@ static int ls_init(const char *wasm_path, void *(*resolve)(const char *, const c
     if (envin) env = *envin; else memset(&env, 0, sizeof env);
     if (!env.host_call) env.host_call = ls_host_ref;
     if (!env.fuel) env.fuel = 200000;
+    if (!env.page_cap) env.page_cap = 65535; /* the runtime keeps the byte size in 32 bits: 65536 pages are a resource limit the spec permits */
     ls_ref = wr_instantiate(ls_mod, &env);
     if (ls_ref->start_trap) { printf("ERROR reference instantiation trapped: %s\n", wr_trap_name(ls_ref->start_trap)); return 0; }
     memset(&sa, 0, sizeof sa); sa.sa_handler = ls_fatal;
@@ -172,6 +184,21 @@ static int ls_init(const char *wasm_path, void *(*resolve)(const char *, const c
     ls_in_impl = 0;
     return 1;
 }
+
+/* ---- memory comparison (define LS_IMPL_MEM as the implementation's wasmMemory* before including this header) ---- */
+#ifdef LS_IMPL_MEM
+static const char *ls_compare_memory(void) {
+    wasmMemory *im = LS_IMPL_MEM; wr_memory *rm = ls_ref->mems[0]; static char buf[160];
+    if (im->pages != rm->pages) { snprintf(buf, sizeof buf, "memory-pages(impl=%u,ref=%u)", im->pages, rm->pages); return buf; }
+    if (!im->shared && im->size != rm->pages * 65536u) { snprintf(buf, sizeof buf, "memory-size-field(impl=%u,pages=%u)", im->size, im->pages); return buf; }
+    if (rm->pages && memcmp(im->data, rm->data, (size_t)rm->pages * 65536u) != 0) {
+        size_t k, n = (size_t)rm->pages * 65536u; for (k = 0; k < n; k++) if (im->data[k] != rm->data[k]) break;
+        snprintf(buf, sizeof buf, "memory-byte@%zu(impl=%02x,ref=%02x)", k, im->data[k], rm->data[k]); return buf; }
+    return NULL;
+}
+#else
+static const char *ls_compare_memory(void) { return NULL; }
+#endif
 
 /* optional embedder answers for imported tables/memories/globals, set by the generated main */
 static void *(*ls_user_resolve)(const char *, const char *);
@@ -206,6 +233,86 @@ static int ls_main_pure(int argc, char **argv, const ls_func *funcs, int nfuncs,
     }
     alarm(0);
     printf("DONE evals=%llu nontrivial=%d funcs=%d skipped=%llu weak=%llu traps=%llu mismatches=%llu\n", ls_evals, ls_nontrivial, nfuncs, ls_skipped, ls_weak, ls_traps, ls_mismatches);
+    return ls_mismatches ? 1 : 0;
+}
+
+/* ---- explicit-state BFS over operation histories on one live instance (C05, C06) ----
+ * A state is the history that reaches it (live objects are not copied: every extension re-executes the history on a
+ * fresh implementation instance AND a fresh reference instance); states are deduplicated by a hash of the
+ * property-observable state of the REFERENCE (pages + all memory bytes + extra flags); the implementation is compared
+ * with the reference after every transition (result, trap, memory). */
+typedef struct ls_op { int func; uint64_t args[4]; int flag; /* bit OR-ed into the state's flag word when executed */ } ls_op;
+#define LS_MAXDEPTH 8
+typedef struct ls_hist { unsigned char n; unsigned short op[LS_MAXDEPTH]; } ls_hist;
+
+static uint64_t ls_state_hash(unsigned flags) {
+    wr_memory *rm = ls_ref->mems[0]; uint64_t h = 1469598103934665603ull ^ rm->pages ^ ((uint64_t)flags << 40);
+    size_t n = (size_t)rm->pages * 65536u / 8, k; const uint64_t *p = (const uint64_t *)(const void *)rm->data;
+    h *= 1099511628211ull;
+    for (k = 0; k < n; k++) { uint64_t v = p[k]; if (v) { h ^= v + k; h *= 1099511628211ull; h ^= h >> 29; } }
+    return h;
+}
+static void ls_fresh(const wr_env *env) {
+    wr_env e; if (env) e = *env; else memset(&e, 0, sizeof e);
+    if (!e.host_call) e.host_call = ls_host_ref; if (!e.fuel) e.fuel = 200000; if (!e.page_cap) e.page_cap = 65535;
+    wr_free_instance(ls_ref); ls_ref = wr_instantiate(ls_mod, &e);
+    mFreeInstance(&ls_inst); memset(&ls_inst, 0, sizeof ls_inst);
+    ls_in_impl = 1; if (setjmp(ls_jb) == 0) mInstantiate(&ls_inst, ls_user_resolve ? ls_user_resolve : ls_resolve_default); ls_in_impl = 0;
+}
+static int ls_main_bfs(int argc, char **argv, const ls_func *funcs, int nfuncs, const ls_op *ops, int nops, int maxdepth, unsigned long long budget) {
+    ls_hist *front, *next; size_t nfront = 1, nnext = 0, capnext = 1024; uint64_t *seen; size_t seencap = 1 << 16, nseen = 0;
+    unsigned long long transitions = 0, states = 1; int depth, completed = 0; uint32_t *ridx; int k; unsigned secs = 1200;
+    unsigned long long *opout = (unsigned long long *)calloc((size_t)nops * 8, sizeof *opout); /* up to 8 distinct outcome hashes per op */
+    (void)nfuncs;
+    if (argc < 2) { printf("ERROR usage\n"); return 2; }
+    /* fresh instances are created per transition: keep 64 KiB..MiB blocks on the heap instead of mmap/munmap per block */
+    mallopt(M_MMAP_THRESHOLD, 1 << 30); mallopt(M_TRIM_THRESHOLD, 1 << 30);
+    if (argc >= 3) maxdepth = atoi(argv[2]);
+    if (argc >= 4) secs = (unsigned)atoi(argv[3]);
+    if (!ls_init(argv[1], ls_user_resolve, ls_user_env)) return 2;
+    ls_compare_mem_flag = 1;
+    ridx = (uint32_t *)calloc((size_t)nfuncs, sizeof *ridx);
+    for (k = 0; k < nfuncs; k++) if (!wr_find_export(ls_mod, funcs[k].name, 0, &ridx[k])) { printf("ERROR no export %s\n", funcs[k].name); return 2; }
+    seen = (uint64_t *)calloc(seencap, 8);
+    front = (ls_hist *)calloc(1, sizeof *front); next = (ls_hist *)malloc(capnext * sizeof *next);
+    { uint64_t h = ls_state_hash(0) | 1; seen[h & (seencap - 1)] = h; nseen = 1; }
+    alarm(secs);
+    for (depth = 0; depth < maxdepth; depth++) {
+        size_t fi;
+        nnext = 0;
+        for (fi = 0; fi < nfront; fi++) {
+            int oi;
+            for (oi = 0; oi < nops; oi++) {
+                unsigned flags = 0; int j, dead = 0; uint64_t oh;
+                if (transitions >= budget) goto capped;
+                ls_fresh(ls_user_env);
+                ls_compare_mem_flag = 0; /* the prefix was compared when it was first explored */
+                for (j = 0; j < front[fi].n; j++) { const ls_op *o = &ops[front[fi].op[j]]; ls_step(&funcs[o->func], o->func, ridx[o->func], o->args); flags |= (unsigned)o->flag; }
+                ls_compare_mem_flag = 1;
+                { const ls_op *o = &ops[oi]; unsigned long long mm = ls_mismatches;
+                  oh = ls_step(&funcs[o->func], o->func, ridx[o->func], o->args); transitions++; flags |= (unsigned)o->flag;
+                  if (ls_last_skipped) dead = 1; /* precondition violated (out of bounds): not a transition */
+                  if (ls_mismatches != mm) { dead = 1; if (ls_mismatches <= (unsigned long long)ls_max_report) { printf("HISTORY"); for (j = 0; j < front[fi].n; j++) printf(" %d", front[fi].op[j]); printf(" %d\n", oi); } } }
+                if (dead) continue;
+                { int q; for (q = 0; q < 8; q++) { if (opout[oi * 8 + q] == (oh | 1)) break; if (!opout[oi * 8 + q]) { opout[oi * 8 + q] = oh | 1; break; } } }
+                { uint64_t h = ls_state_hash(flags) | 1; size_t pos = h & (seencap - 1); int found = 0;
+                  while (seen[pos]) { if (seen[pos] == h) { found = 1; break; } pos = (pos + 1) & (seencap - 1); }
+                  if (found) continue;
+                  seen[pos] = h; nseen++; states++;
+                  if (nseen * 2 > seencap) { uint64_t *ns = (uint64_t *)calloc(seencap * 2, 8); size_t q; for (q = 0; q < seencap; q++) if (seen[q]) { size_t p2 = seen[q] & (seencap * 2 - 1); while (ns[p2]) p2 = (p2 + 1) & (seencap * 2 - 1); ns[p2] = seen[q]; } free(seen); seen = ns; seencap *= 2; }
+                  if (nnext == capnext) { capnext *= 2; next = (ls_hist *)realloc(next, capnext * sizeof *next); }
+                  next[nnext] = front[fi]; next[nnext].op[next[nnext].n++] = (unsigned short)oi; nnext++; }
+            }
+        }
+        completed = depth + 1;
+        free(front); front = next; nfront = nnext; capnext = 1024; next = (ls_hist *)malloc(capnext * sizeof *next);
+        if (nfront == 0) break;
+    }
+capped:
+    alarm(0);
+    { int oi, single = 0, dist = 0; for (oi = 0; oi < nops; oi++) { int q, c = 0; for (q = 0; q < 8; q++) if (opout[oi * 8 + q]) c++; dist += c; if (c <= 1) single++; }
+      printf("BFSDONE states=%llu transitions=%llu depth_completed=%d capped=%d ops=%d op_outcomes=%d ops_single_outcome=%d\n", states, transitions, completed, completed < maxdepth && nfront != 0, nops, dist, single); }
+    printf("DONE evals=%llu nontrivial=%d funcs=%d skipped=%llu weak=%llu traps=%llu mismatches=%llu\n", ls_evals, (int)states, nfuncs, ls_skipped, ls_weak, ls_traps, ls_mismatches);
     return ls_mismatches ? 1 : 0;
 }
 
